@@ -132,6 +132,19 @@ ADD3 = {
  "C19": ("frame.file pairing rule; third-party call census", "Eval code run in the caller's scope puts the caller's file and offset back; position lookup through a script-supplied source map cannot panic."),
  "C20": ("native-closure capture rule; mutable-payload clone rule", "Copies share no closure bound to the template runtime and no mutable bridge wrapper."),
 }
+ADD4 = {
+ "C01": ("completion-consumption table evaluated abstractly; [[DefaultValue]] sequence evaluated abstractly", "Loops consume break and continue, switch and labelled blocks only break; [[DefaultValue]] looks up and calls valueOf / toString in the order 8.12.8 prescribes."),
+ "C03": ("per-token store of the ASI flag", "Every return of the scanner stores insertSemicolon for the token it returns (reserved words excepted)."),
+ "C05": ("[[DefaultValue]] sequence evaluated abstractly; ToPrimitive dataflow in the + operator", "The second method of [[DefaultValue]] is looked up only after the first was called; `+` converts both operands with ToPrimitive before any ToString / ToNumber."),
+ "C07": ("class-table slot sibling rule; String index attribute table", "A class with its own [[GetOwnProperty]] also overrides every ordinary slot that reads the property table directly; String index properties are enumerable, read-only, non-configurable."),
+ "C09": ("ToString(this) must-pass-through over String.prototype; class-table slot sibling rule", "Every generic String.prototype function applies ToString to its this value on every returning path; the index properties of a String object cannot be redefined."),
+ "C18": ("census of the writers of scope.depth", "Only enterScope and the eval built-in's increment / deferred decrement write the depth the stack limit is compared with."),
+ "C20": ("method-call census on package-level library objects", "Package-level objects shared by all runtimes are of types documented as safe for concurrent use."),
+}
+for _pid, (_t, _d) in ADD4.items():
+    t0, d0, n0 = P[_pid]
+    P[_pid] = (t0 + "; " + _t, d0 + " Also: " + _d, n0)
+
 for _pid, (_t, _d) in ADD3.items():
     t0, d0, n0 = P[_pid]
     P[_pid] = (t0 + "; " + _t, d0 + " Also: " + _d, n0)
